@@ -4089,13 +4089,21 @@ impl CanonicalizeContext {
 	
 		let mut parsed_mrow = top_of_stack.mrow;
 		assert_eq!( name(&top_of_stack.mrow), "mrow");
+		let mut is_authored_mo = false;
 		if parsed_mrow.children().len() == 1 && is_ok_to_merge_child {
 			parsed_mrow = top_of_stack.remove_last_operand_from_mrow();
 			// was synthesized, but is really the original top level mrow
+			// an operator the author wrote (e.g., the only child of an mstyle/mpadded that was turned into an mrow) must not be marked as 'added'
+			//   because added operators are removed again when chemistry guesses are undone
+			is_authored_mo = name(&parsed_mrow) == "mo" && parsed_mrow.attribute_value(CHANGED_ATTR) != Some(ADDED_ATTR_VALUE);
 		}
 	
 		parsed_mrow.remove_attribute(CHANGED_ATTR);
-		return Ok( add_attrs(parsed_mrow, &saved_mrow_attrs) );
+		let parsed_mrow = add_attrs(parsed_mrow, &saved_mrow_attrs);
+		if is_authored_mo && parsed_mrow.attribute_value(CHANGED_ATTR) == Some(ADDED_ATTR_VALUE) {
+			parsed_mrow.remove_attribute(CHANGED_ATTR);
+		}
+		return Ok( parsed_mrow );
 	}	
 }
 
